@@ -21,7 +21,8 @@ def fork(prop, _facts=None, **facts):
 class CountHooks(flow.Hooks):
     """prop = tuple of (symbol, count) sorted; classify(inst, E, counts) -> symbol | [symbols] | None"""
 
-    def __init__(self, fn, pdb, classify, retsets=None, init=None, cap=None, pinned=None, oracle=None, cell=None):
+    def __init__(self, fn, pdb, classify, retsets=None, init=None, cap=None, pinned=None, oracle=None, cell=None, values=None):
+        self.values = values
         self.fn = fn
         self.pdb = pdb
         self.classify = classify
@@ -57,6 +58,14 @@ class CountHooks(flow.Hooks):
         if self.oracle is None:
             return None
         return self.oracle(inst, inst["pred"], E.flow.expr(inst["a"]), E.flow.expr(inst["b"]), E)
+
+    def load_value(self, pe, E):
+        if self.values is None:
+            return None
+        v = self.values(pe)
+        if v is None:
+            return None
+        return v if isinstance(v, tuple) else flow.av_in(v)
 
     def on_inst(self, inst, prop, E):
         r = self.classify(inst, E, dict(prop))
@@ -99,8 +108,8 @@ class CountHooks(flow.Hooks):
         return ("in", frozenset(s))
 
 
-def count_effects(fn, pdb, classify, retsets=None, init=None, cap=None, pinned=None, oracle=None, cell=None):
-    h = CountHooks(fn, pdb, classify, retsets, init, cap, pinned, oracle, cell)
+def count_effects(fn, pdb, classify, retsets=None, init=None, cap=None, pinned=None, oracle=None, cell=None, values=None):
+    h = CountHooks(fn, pdb, classify, retsets, init, cap, pinned, oracle, cell, values)
     fl = flow.Flow(fn, h)
     fl.run()
     outs = []
@@ -215,3 +224,82 @@ def guards_of(fn, inst):
 def callers_outside(pdb, callee, allowed):
     """call sites of `callee` in functions not in `allowed`"""
     return [i for i in pdb.callers(callee) if i.fn.name not in allowed]
+
+
+# ---------------------------------------------------------------- normalised guards
+_NEG = {"eq": "ne", "ne": "eq", "ult": "uge", "uge": "ult", "ule": "ugt", "ugt": "ule", "slt": "sge", "sge": "slt", "sle": "sgt", "sgt": "sle"}
+
+
+class Guards:
+    """what the dominating branch outcomes establish at an instruction, independent of how the condition was written
+    (a <= b, !(a > b), b >= a, De Morgan'ed conjunctions ... all normalise to the same relation facts)"""
+
+    def __init__(self, fn, inst):
+        self.fn = fn
+        self.rel = set()      # ('lt'|'le'|'eq'|'ne', a, b)
+        self.truth = []       # (expr, bool) for non-comparison conditions
+        for cond, t, br in guards_of(fn, inst):
+            self._add(vf.expr(fn, cond), t)
+
+    def _add(self, e, t):
+        if e[0] == "icmp":
+            pred = e[1] if t else _NEG.get(e[1], e[1])
+            a, b = e[2], e[3]
+            if pred == "eq":
+                self.rel.add(("eq", a, b))
+            elif pred == "ne":
+                self.rel.add(("ne", a, b))
+            elif pred in ("ult", "slt"):
+                self.rel.add(("lt", a, b))
+            elif pred in ("ule", "sle"):
+                self.rel.add(("le", a, b))
+            elif pred in ("ugt", "sgt"):
+                self.rel.add(("lt", b, a))
+            elif pred in ("uge", "sge"):
+                self.rel.add(("le", b, a))
+            # a comparison of a boolean-valued expression with 0 / 1 is that expression's truth
+            for x, y in ((a, b), (b, a)):
+                if y == ("c", 0) and pred in ("eq", "ne"):
+                    self.truth.append((x, pred == "ne"))
+                    if x[0] == "icmp":
+                        self._add(x, pred == "ne")
+        elif e[0] == "bin" and e[1] == "xor" and ("c", 1) in (e[2], e[3]):
+            inner = e[2] if e[3] == ("c", 1) else e[3]
+            self._add(inner, not t)
+        else:
+            self.truth.append((e, t))
+
+    def eq(self, a, b):
+        return ("eq", a, b) in self.rel or ("eq", b, a) in self.rel
+
+    def ne(self, a, b):
+        return ("ne", a, b) in self.rel or ("ne", b, a) in self.rel or self.lt(a, b) or self.lt(b, a)
+
+    def lt(self, a, b):
+        return ("lt", a, b) in self.rel
+
+    def le(self, a, b):
+        return ("le", a, b) in self.rel or ("lt", a, b) in self.rel or self.eq(a, b)
+
+    def true(self, pred):
+        """some condition expression satisfying pred is known true"""
+        return any(t and pred(e) for e, t in self.truth)
+
+    def false(self, pred):
+        return any((not t) and pred(e) for e, t in self.truth)
+
+    def find(self, rel, pa, pb):
+        """relations (rel, a, b) with pa(a) and pb(b)"""
+        return [(r, a, b) for (r, a, b) in self.rel if r == rel and pa(a) and pb(b)]
+
+    def find_eq(self, pa, pb):
+        return [(a, b) for (r, a, b) in self.rel if r == "eq" and pa(a) and pb(b)] + [(b, a) for (r, a, b) in self.rel if r == "eq" and pa(b) and pb(a)]
+
+    def find_ne(self, pa, pb):
+        return [(a, b) for (r, a, b) in self.rel if r == "ne" and pa(a) and pb(b)] + [(b, a) for (r, a, b) in self.rel if r == "ne" and pa(b) and pb(a)]
+
+    def nonzero(self, x):
+        return self.ne(x, ("c", 0)) or any(t and e == x for e, t in self.truth) or self.lt(("c", 0), x)
+
+    def zero(self, x):
+        return self.eq(x, ("c", 0)) or any((not t) and e == x for e, t in self.truth)
